@@ -569,7 +569,7 @@ theorem setDisp_inv (s : State) (g : Nat) (d : Disp) (h : Inv s) (hv : valid s (
     have hc := h.core
     refine ⟨hc.fdsIff, ?_, hc.oldOk, hc.invalid, hc.entries, hc.pipeIff, hc.pipeNil, hc.ndSubs, hc.ndFds⟩
     intro g'
-    show (upd s.os g d g').kind = .tbox ↔ _
+    show (upd s.os g (kstore d) g').kind = .tbox ↔ _
     by_cases hg : g' = g
     · subst hg
       simp only [upd_apply, ↓reduceIte]
@@ -587,7 +587,23 @@ theorem raiseW_inv (s : State) (g : Nat) (wf : List Nat) (h : Inv s) : Inv (rais
   split
   · exact h
   · exact h
-  · exact inv_of_core h (core_congr h.core rfl rfl rfl rfl rfl) rfl rfl rfl rfl
+  · rename_i hh hk
+    refine inv_of_core h ?_ rfl rfl rfl rfl
+    have hc := h.core
+    refine ⟨hc.fdsIff, ?_, hc.oldOk, hc.invalid, hc.entries, hc.pipeIff, hc.pipeNil, hc.ndSubs, hc.ndFds⟩
+    intro g'
+    show (upd s.os g (kReset (s.os g)) g').kind = .tbox ↔ _
+    by_cases hg : g' = g
+    · subst hg
+      simp only [upd_apply, ↓reduceIte]
+      have hne : (kReset (s.os g')).kind ≠ .tbox := by
+        unfold kReset; split
+        · simp
+        · rw [hk]; simp
+      constructor
+      · intro h1; exact absurd h1 hne
+      · intro h1; have := (hc.osTbox g').2 h1; rw [hk] at this; cases this
+    · simp only [upd_apply, hg, ↓reduceIte]; exact hc.osTbox g'
   · have hc := touchCtx_core s g h.core
     refine inv_of_core h ?_ rfl rfl rfl rfl
     refine ⟨hc.fdsIff, hc.osTbox, hc.oldOk, hc.invalid, hc.entries, hc.pipeIff, ?_, hc.ndSubs, hc.ndFds⟩
@@ -753,8 +769,8 @@ theorem passChunk_inv (s : State) (l : Nat) (ord items : List Nat) (h : Inv s) :
   | cons g gs ih => exact ih _ (dispatch_inv s l g _ h)
 
 /-- taking numbers out of a loop's pipe keeps the invariant -/
-theorem setPipe_inv (s : State) (l : Nat) (p : List Nat) (h : Inv s) (hp : s.hasPipe l = true) :
-    Inv { s with pipe := upd s.pipe l p } := by
+theorem setPipe_inv (s : State) (l : Nat) (p : List Nat) (hv : Nat → Nat) (h : Inv s) (hp : s.hasPipe l = true) :
+    Inv { s with pipe := upd s.pipe l p, head := hv } := by
   refine inv_of_core h ?_ rfl rfl rfl rfl
   have hc := h.core
   refine ⟨hc.fdsIff, hc.osTbox, hc.oldOk, hc.invalid, hc.entries, hc.pipeIff, ?_, hc.ndSubs, hc.ndFds⟩
@@ -767,7 +783,7 @@ theorem setPipe_inv (s : State) (l : Nat) (p : List Nat) (h : Inv s) (hp : s.has
 /-- generic induction over the read loop of `CommonLoop::onSignal` -/
 theorem passLoop_ind (l : Nat) (ord : List Nat) (P : State → Prop)
     (hChunk : ∀ s items, Inv s → P s → P (passChunk repaired s l ord items))
-    (hPipe : ∀ s p, P s → P { s with pipe := upd s.pipe l p })
+    (hPipe : ∀ s p hv, P s → P { s with pipe := upd s.pipe l p, head := hv })
     (fuel : Nat) (s : State) (h : Inv s) (hp : P s) :
     Inv (passLoop repaired l ord fuel s) ∧ P (passLoop repaired l ord fuel s) := by
   induction fuel generalizing s with
@@ -778,17 +794,17 @@ theorem passLoop_ind (l : Nat) (ord : List Nat) (P : State → Prop)
     · simp only [hpipe, Bool.not_true, Bool.false_eq_true, ↓reduceIte]
       split
       · exact ⟨h, hp⟩
-      · have h1 := setPipe_inv s l ((s.pipe l).drop 10) h hpipe
-        exact ih _ (passChunk_inv _ l ord _ h1) (hChunk _ _ h1 (hPipe s _ hp))
+      · have h1 := setPipe_inv s l ((s.pipe l).drop 10) (upd s.head l ((hd s l + 10) % pageLen)) h hpipe
+        exact ih _ (passChunk_inv _ l ord _ h1) (hChunk _ _ h1 (hPipe s _ _ hp))
     · simp only [hpipe, Bool.not_false, ↓reduceIte]; exact ⟨h, hp⟩
 
 theorem pass_inv (s : State) (l : Nat) (ord : List Nat) (h : Inv s) : Inv (pass repaired s l ord) :=
-  (passLoop_ind l ord (fun _ => True) (fun _ _ _ _ => trivial) (fun _ _ _ => trivial) _ s h trivial).1
+  (passLoop_ind l ord (fun _ => True) (fun _ _ _ _ => trivial) (fun _ _ _ _ => trivial) _ s h trivial).1
 
 /-- generic induction over the read loop with the kernel's `read()` answers as an oracle -/
 theorem passLoopC_ind (l : Nat) (ord : List Nat) (P : State → Prop)
     (hChunk : ∀ s items, Inv s → P s → P (passChunk repaired s l ord items))
-    (hPipe : ∀ s p, P s → P { s with pipe := upd s.pipe l p })
+    (hPipe : ∀ s p hv, P s → P { s with pipe := upd s.pipe l p, head := hv })
     (fuel : Nat) (cs : List (Option Nat)) (s : State) (h : Inv s) (hp : P s) :
     Inv (passLoopC repaired l ord cs fuel s) ∧ P (passLoopC repaired l ord cs fuel s) := by
   induction fuel generalizing s cs with
@@ -801,13 +817,13 @@ theorem passLoopC_ind (l : Nat) (ord : List Nat) (P : State → Prop)
       · exact ⟨h, hp⟩
       · split
         · exact ⟨h, hp⟩
-        · have h1 := setPipe_inv s l ((s.pipe l).drop (nextLen cs)) h hpipe
-          exact ih _ _ (passChunk_inv _ l ord _ h1) (hChunk _ _ h1 (hPipe s _ hp))
+        · have h1 := setPipe_inv s l ((s.pipe l).drop (nextLen cs)) (upd s.head l ((hd s l + nextLen cs) % pageLen)) h hpipe
+          exact ih _ _ (passChunk_inv _ l ord _ h1) (hChunk _ _ h1 (hPipe s _ _ hp))
     · simp only [hpipe, Bool.not_false, ↓reduceIte]; exact ⟨h, hp⟩
 
 theorem passC_inv (s : State) (l : Nat) (ord : List Nat) (cs : List (Option Nat)) (h : Inv s) :
     Inv (passC repaired s l ord cs) :=
-  (passLoopC_ind l ord (fun _ => True) (fun _ _ _ _ => trivial) (fun _ _ _ => trivial) _ cs s h trivial).1
+  (passLoopC_ind l ord (fun _ => True) (fun _ _ _ _ => trivial) (fun _ _ _ _ => trivial) _ cs s h trivial).1
 
 theorem step_inv (s : State) (op : Op) (h : Inv s) (hv : valid s op = true) : Inv (step repaired s op) := by
   cases op with
